@@ -8,12 +8,15 @@
 (*   childA         : sequence, the `features = ...` list inside [delta "A"]                    *)
 (*   flagsCli, flagsMain : sets of builtin features enabled by flag on the command line / in    *)
 (*                    the [delta] section                                                       *)
-(*   noGit          : --no-gitconfig                                                            *)
+(*   noGit          : --no-gitconfig (then nothing written in any gitconfig source counts, also   *)
+(*                    not a file named with --config nor GIT_CONFIG_PARAMETERS)                  *)
+(* A feature may be listed more than once in one list ("a b a"): the last occurrence counts.    *)
 (* Values are source names: "cli", "gcp", "main", "c_<feature>" (custom section), "b_<feature>" *)
 (* (builtin feature's own value), "default".                                                    *)
 EXTENDS Naturals, Sequences, FiniteSets, TLC
 
 Builtins == {"dsf", "dh"}           \* diff-so-fancy, diff-highlight: both set the option themselves
+BuiltinNames == Builtins \cup {"nav"}   \* navigate: a builtin feature that does not set the option (a custom section of that name may)
 Rev(s) == [i \in 1..Len(s) |-> s[Len(s) + 1 - i]]
 Contains(s, x) == \E i \in DOMAIN s : s[i] = x
 Children(p, f) == IF f = "A" /\ ~p.noGit THEN p.childA ELSE <<>>    \* the list lives in gitconfig
@@ -29,7 +32,7 @@ PushFront(d, f) == <<f>> \o d
 GatherBuiltin(d, f) == IF Contains(d, f) THEN d ELSE PushFront(d, f)
 RECURSIVE GatherRec(_, _, _), GatherAll(_, _, _)
 GatherRec(p, d, f) ==
-  LET d1 == IF f \in Builtins THEN GatherBuiltin(d, f) ELSE PushFront(d, f)
+  LET d1 == IF f \in BuiltinNames THEN GatherBuiltin(d, f) ELSE PushFront(d, f)
   IN GatherAll(p, d1, Rev(Children(p, f)))        \* split_feature_string reverses the list
 \* gather a list of (child) features, skipping those already present
 GatherAll(p, d, fs) ==
@@ -44,7 +47,8 @@ RECURSIVE GatherFlags(_, _)
 GatherFlags(d, fs) == IF fs = <<>> THEN d ELSE GatherFlags(GatherBuiltin(d, fs[1]), Tail(fs))
 
 \* code order of the command-line flags; ordMain = order in which the [delta] section's flags are met
-CliFlagSeq(p) == SelectSeq(<<"dh", "dsf">>, LAMBDA f : f \in p.flagsCli)
+FlagOrder == <<"dh", "dsf", "nav">>      \* order of the `if opt.<flag>` tests in gather_features = sorted order of the names
+CliFlagSeq(p) == SelectSeq(FlagOrder, LAMBDA f : f \in p.flagsCli)
 FeatureList(p, ordMain) ==
   LET input == CASE p.envMode = "plus"  -> p.envF \o Rev(p.cliF)
                  [] p.envMode = "plain" -> Rev(p.envF)
